@@ -152,8 +152,8 @@ func (w *World) BuildGenesis(cdc codec.JSONCodec) app.GenesisState {
 	}
 	// one periodic vesting user
 	ab.WithSimplePeriodicVestingAccount(w.Addrs[NUsers-1], funds, vestingtypes.Periods{
-		{Length: 3600, Amount: cs(c("ukava", 1_000_000_000))},
-		{Length: 86400 * 30, Amount: cs(c("ukava", 2_000_000_000))},
+		{Length: 3600, Amount: cs(c("ukava", 1_000_000_000), c("busd", 1_000_000_000))},
+		{Length: 86400 * 30, Amount: cs(c("ukava", 2_000_000_000), c("busd", 3_000_000_000))},
 	}, Genesis0.Unix())
 	for _, o := range w.Oracles {
 		ab.WithSimpleAccount(w.Addrs[o], cs(c("ukava", 1_000_000)))
@@ -652,11 +652,22 @@ func (w *World) GenTx(r *Rng, tApp app.TestApp, used map[int]bool) ([]byte, stri
 		}
 		return w.Sign(tApp, signer, committeetypes.NewMsgVote(w.Addrs[signer], uint64(1+r.Intn(3)), committeetypes.VOTE_TYPE_YES)), "committee.vote"
 	default: // issuance by the asset owner (user 1) or an impostor
+		if u != 1 && !used[1] && r.Chance(1, 2) {
+			delete(used, u)
+			u = 1
+			used[1] = true
+			A = w.Addrs[1]
+		}
 		tok := c("busd", amt(r, 1_000_000_000))
-		if r.Chance(1, 2) {
+		switch r.Intn(5) {
+		case 0, 1:
 			msg, desc = issuancetypes.NewMsgIssueTokens(A.String(), tok, other.String()), "issuance.issue"
-		} else {
+		case 2:
 			msg, desc = issuancetypes.NewMsgRedeemTokens(A.String(), tok), "issuance.redeem"
+		case 3:
+			msg, desc = issuancetypes.NewMsgBlockAddress(A.String(), "busd", other.String()), "issuance.block"
+		default:
+			msg, desc = issuancetypes.NewMsgUnblockAddress(A.String(), "busd", other.String()), "issuance.unblock"
 		}
 	}
 	if msg == nil {
